@@ -451,6 +451,12 @@ class SymNum:
         mode = CTX().hash_mode
         if mode == 'affine' and self._is_affine_key():
             return hash(frozenset(self.terms.items()))
+        if mode == 'normal_form':
+            # hashing by normal form: sound iff distinct normal forms used as keys denote distinct values on this path;
+            # every key is recorded and the runner discharges the pairwise distinctness obligations at the end of the path
+            key = frozenset(self.terms.items())
+            CTX().hashed_keys[key] = self
+            return hash(key)
         if self.is_int:
             return hash(realize_int(self))
         raise Unsupported('hash of symbolic real')
@@ -868,6 +874,7 @@ class Context:
         self.hash_mode = 'realize'
         self.deadline = None
         self.affine_atoms = set()
+        self.hashed_keys = {}
         self.fresh_counter = {}
         self.inputs = {}  # name -> SymNum (registered inputs, for model extraction)
         self.funcs = {}  # name -> (z3 func, arity)
@@ -1085,6 +1092,25 @@ class Context:
 
     def observe(self, name, value):
         self.observations.append((name, value))
+
+    def hashed_keys_distinct(self):
+        """Obligations of hash_mode 'normal_form': all recorded keys are pairwise different under the path condition.
+        Returns (number of obligations, list of failures)."""
+        keys = list(self.hashed_keys.values())
+        n = 0
+        bad = []
+        for i in range(len(keys)):
+            for j in range(i + 1, len(keys)):
+                d = SymNum.coerce(keys[i] - keys[j])
+                n += 1
+                if d.is_const():
+                    if d.const_value() == 0:
+                        bad.append('equal keys with different normal forms')
+                    continue
+                r = self._check(d.z3() == 0)
+                if r != z3.unsat:
+                    bad.append('keys %s and %s may coincide (%s)' % (keys[i].describe(), keys[j].describe(), r))
+        return n, bad
 
 
 _CTX = [None]
